@@ -98,9 +98,23 @@ def gen_random_access(r):
             "transfers": [], "net": {}}
 
 
+def gen_tcp_upload(r):
+    """A request body uploaded over CoAP-over-TCP (RFC 8323): before the peer's CSM is in, the client starts with BERT
+    blocks (SZX 7: block numbers count KiB, a block carries several KiB); the server -- conforming -- may answer with a
+    smaller size at any acknowledgement, down through 1024 (SZX 6) to anything below."""
+    return {"tcpup": {"qlen": r.choice([1025, 1500, 2048, 2049, 3000, 4096, 5000, 8192, 9000, 12345]),
+                      "mms": r.choice([1152, 2300, 4300, 8400, 70000]), "bw": r.chance(0.9),
+                      "csm_delay": r.choice([0.0, 0.0, 0.02, 0.3]),
+                      "reduce": r.choice([None, [0, 6], [0, 6], [0, 5], [0, 2], [1, 6], [1, 4], [2, 6], [2, 0]]),
+                      "method": r.choice(["PUT", "POST"])},
+            "transfers": [], "net": {}}
+
+
 def gen(r, tier):
     if r.chance(0.06):
         return gen_random_access(r)
+    if r.chance(0.05):
+        return gen_tcp_upload(r)
     n = r.choice([1, 1, 2, 3])
     trs = [gen_transfer(r, i) for i in range(n)]
     for i, tr in enumerate(trs):
@@ -154,6 +168,8 @@ def systematic(tier):
 
 
 def shrink(scn):
+    if scn.get("tcpup"):
+        return
     if scn.get("ra"):
         return
     trs = scn["transfers"]
@@ -494,9 +510,114 @@ def execute_random_access(sim, scn):
         sim.anomaly("loop-exception:%s" % en, "%s %s" % (m, es))
 
 
+def execute_tcp_upload(sim, scn):
+    import aiocoap
+    from aiocoap import Message, error
+    from aiocoap.numbers.codes import Code
+    from simkit.stream import SimStreamNet, TcpPeer, TcpPeerListener, split_frames
+
+    loop = sim.loop
+    up = scn["tcpup"]
+    sn = SimStreamNet(sim)
+    loop.streamnet = sn
+    ip = "fd00::20"
+    body = req_body(7, up["qlen"])
+    sim.probe("upload_over_tcp")
+    st = {"assembled": bytearray(), "acks": 0, "seen": 0, "requests": [], "complete": None, "refused": None}
+    csm_opts = [(2, rc.uint_bytes(up["mms"]))] + ([(4, b"")] if up["bw"] else [])
+
+    def unit(szx):
+        return 1024 if szx == 7 else size_of(szx)
+
+    def on_data(p, d):
+        if not st.get("csm_sent"):
+            return  # (a server says nothing before its CSM; what has arrived is looked at right after)
+        frames, _ = split_frames(p.rx)
+        for (a, b, m, err) in frames[st["seen"]:]:
+            st["seen"] += 1
+            if m is None or not (1 <= m["code"] < 32):
+                continue
+            b1 = rc.opt1(m, rc.BLOCK1)
+            if b1 is None:
+                st["requests"].append((None, len(m["payload"])))
+                st["assembled"] = bytearray(m["payload"])
+                st["complete"] = bytes(st["assembled"])
+                p.send({"code": rc.CHANGED, "token": m["token"], "options": [], "payload": b""})
+                continue
+            num, more, szx = rc.block_value(b1)
+            st["requests"].append(((num, more, szx), len(m["payload"])))
+            off = num * unit(szx)
+            if num == 0:
+                st["assembled"] = bytearray()
+            ok = off == len(st["assembled"]) and (not more or (len(m["payload"]) > 0 and len(m["payload"]) % unit(szx) == 0 and
+                                                               (szx == 7 or len(m["payload"]) == unit(szx))))
+            if not ok:
+                # RFC 7959 2.5: what arrives does not continue what is there
+                st["refused"] = {"block": [num, more, szx], "offset": off, "have": len(st["assembled"]), "len": len(m["payload"])}
+                p.send({"code": rc.REQUEST_ENTITY_INCOMPLETE, "token": m["token"], "options": [], "payload": b""})
+                continue
+            st["assembled"] += m["payload"]
+            szx_ack = szx
+            if up["reduce"] is not None and st["acks"] >= up["reduce"][0]:
+                szx_ack = min(szx, up["reduce"][1])
+                if szx_ack < szx:
+                    sim.probe("server_reduces_size_over_tcp")
+                    if szx == 7:
+                        sim.probe("server_turns_bert_down")
+            st["acks"] += 1
+            if more:
+                p.send({"code": rc.code(2, 31), "token": m["token"], "options": [(rc.BLOCK1, rc.block_bytes(num, True, szx_ack))], "payload": b""})
+            else:
+                st["complete"] = bytes(st["assembled"])
+                p.send({"code": rc.CHANGED, "token": m["token"], "options": [(rc.BLOCK1, rc.block_bytes(num, False, szx_ack))], "payload": b""})
+
+    def made(p, k, i):
+        if k == "made":
+            csm = rc.tcp_encode({"code": rc.CSM, "token": b"", "options": csm_opts, "payload": b""})
+            def send_csm():
+                if p.is_open:
+                    p.write(csm)
+                    st["csm_sent"] = True
+                    on_data(p, b"")
+            if up["csm_delay"]:
+                loop.after(up["csm_delay"], send_csm)
+            else:
+                send_csm()
+
+    listener = TcpPeerListener(sim, ip, 5683, lambda n: TcpPeer(sim, "tcp-server#%d" % n, on_data=on_data, on_event=made))
+
+    async def setup():
+        await listener.start()
+        return await aiocoap.Context.create_client_context(transports=["tcpclient"], loggername="coap")
+
+    client = loop.run_until_complete(setup())
+    sim.contexts.append(client)
+    tracker = common.Tracker(sim)
+    loop.at(loop.now + 0.01, lambda: tracker.start(0, client, Message(code=Code(METHODS[up["method"]]), uri="coap+tcp://[%s]/up" % ip, payload=body),
+                                                 handle_blockwise=True))
+    sim.run()
+    sim.nontrivial = True
+    rec = tracker.results[0]
+    ident = dict(up, requests=[[list(b) if b else None, n] for b, n in st["requests"]][:12])
+    szxs = [b[2] for b, n in st["requests"] if b is not None]
+    if any(y > x for x, y in zip(szxs, szxs[1:])):
+        sim.violation("C05/size-exponent-grew", ident)
+    if not rec["done"]:
+        sim.violation("C05/transfer-never-completed", ident)
+    elif rec["outcome"] != "response" or st["refused"] is not None:
+        sim.violation("C05/conforming-transfer-failed", dict(ident, refused=st["refused"], outcome=rec["outcome"],
+                                                             exception=repr(rec.get("exception"))[:120]))
+    elif st["complete"] != body:
+        sim.violation("C05/request-body-differs", dict(ident, got=len(st["complete"] or b""), expected=len(body)))
+    for (t, m, en, es) in sim.loop_exceptions():
+        sim.anomaly("loop-exception:%s" % en, "%s %s" % (m, es))
+
+
 def execute(sim, scn):
     if scn.get("ra"):
         return execute_random_access(sim, scn)
+    if scn.get("tcpup"):
+        return execute_tcp_upload(sim, scn)
     from aiocoap import Message, error
     from aiocoap.numbers.codes import Code
 
